@@ -44,6 +44,29 @@ def svd_clause(model, rep, funcs):
             ok = cfg.must_pass_through(sv, is_centering)
             rep.ob("DU", f.anchor, "the matrix handed to the SVD is the data minus its column mean on every path (centring precedes the decomposition)", ok,
                    f"`{norm_src(call)[:60]}` is reachable without `{arg} -= self.mean_`", node=sv.node, fn=f, clause="fit")
+            if (dotted(call.func) or "").split(".")[-1] == "svd":
+                # da.linalg.svd is the tall-and-skinny QR algorithm: it raises NotImplementedError unless one of the two axes is a single block.  The flattened stack
+                # inherits whatever chunks the caller's stack had on the spatial axes, so the feature axis must be merged into one block before the call.
+                def one_block(e):
+                    for c in ast.walk(e):
+                        if isinstance(c, ast.Call) and isinstance(c.func, ast.Attribute) and c.func.attr == "rechunk":
+                            spec = c.args[0] if c.args else kwarg(c, "chunks")
+                            if isinstance(spec, ast.Dict):
+                                for k, v in zip(spec.keys, spec.values):
+                                    if norm_src(k) in ("1", "-1") and (norm_src(v) in ("-1", "None") or norm_src(v).endswith("shape[1]")):
+                                        return True
+                            if isinstance(spec, ast.Tuple) and len(spec.elts) == 2 and (norm_src(spec.elts[1]) in ("-1", "None") or norm_src(spec.elts[1]).endswith("shape[1]")):
+                                return True
+                    return False
+
+                def is_rechunk(n, _arg=arg):
+                    return n.kind == "stmt" and isinstance(n.node, ast.Assign) and norm_src(n.node.targets[0]) == _arg and one_block(n.node.value)
+
+                okc = (bool(call.args) and one_block(call.args[0])) or cfg.must_pass_through(sv, is_rechunk)
+                rep.ob("DU", f.anchor, "the exact SVD gets a matrix whose feature axis is one block (rechunk({1: -1})) whatever the chunking of the image stack", okc,
+                       "" if okc else f"`{norm_src(call)[:50]}`: the flattened stack keeps the caller's chunks; a stack chunked along the image axis and a spatial axis "
+                       "(e.g. chunks (5, 3, 6, 6)) raises NotImplementedError('Array must be chunked in one dimension only')", node=sv.node, fn=f, clause="fit",
+                       stmt="def _fit svd chunks")
         mean = [n for n in walk_no_nested(f.node) if isinstance(n, ast.Assign) and norm_src(n.targets[0]) == "self.mean_"]
         okm = len(mean) == 1 and norm_src(mean[0].value) in ("X.mean(0)", "X.mean(axis=0)")
         rep.ob("DU", f.anchor, "mean_ is the per-feature mean over samples (axis 0) of the fitted data", okm, norm_src(mean[0].value) if mean else "", node=f.node,
@@ -108,6 +131,20 @@ def solver_clause(model, rep, funcs):
                        "n_components < 0.8*min(...): components, singular values and projections are then approximations, not those of the exact SVD")
     rep.ob("DU", i.anchor, "the decomposition behind the classifier is an exact SVD (solver 'full'/'tsqr') for every stack size", ok, det, node=pcs[0], fn=i, clause="fit",
            stmt="PCA solver")
+    if solver == "auto" and gs is not None:
+        # independent of the known finding above: whatever the policy does for large stacks, small problems (max(n_samples, n_features) <= 500) get the exact solver;
+        # every assignment of 'randomized' sits in the else-part of that size test
+        small = [n for n in ast.walk(gs.node) if isinstance(n, ast.If) and isinstance(n.test, ast.Compare) and len(n.test.ops) == 1 and
+                 isinstance(n.test.ops[0], (ast.LtE, ast.Lt)) and "max(n_samples, n_features)" in norm_src(n.test.left) and
+                 isinstance(n.test.comparators[0], ast.Constant) and any(isinstance(s, ast.Assign) and isinstance(s.value, ast.Constant) and s.value.value == "full"
+                                                                          for s in n.body)]
+        rnd_all = [n for n in ast.walk(gs.node) if isinstance(n, ast.Assign) and isinstance(n.value, ast.Constant) and n.value.value == "randomized"]
+        rep.instance("DU.solver", gs.loc())
+        oks = bool(small) and all(any(x is r for o in small[0].orelse for x in ast.walk(o)) for r in rnd_all) and small[0].test.comparators[0].value >= 500
+        rep.ob("DU", gs.anchor, "the 'auto' policy keeps the exact solver for small problems: 'randomized' is only chosen when max(n_samples, n_features) > 500", oks,
+               "" if oks else "no `max(n_samples, n_features) <= 500 -> 'full'` test guards the choice of the randomized solver: stacks of any size with "
+               "n_components < 0.8*min(n_samples, n_features) are decomposed approximately (svd_compressed, 0 power iterations)", node=gs.node, fn=gs, clause="fit",
+               stmt="auto policy small problems")
 
 
 def classifier_clause(model, rep, funcs):
